@@ -999,6 +999,7 @@ func genC09(r *Runner) {
 		r.Submit(c)
 	}
 	c09CatalogueChains(r)
+	c09SerialLengths(r)
 }
 
 // c09CatalogueChains: every chain of the C03 / C14 catalogue (each deviation at each position, both purposes, lengths 1..4),
@@ -1064,6 +1065,61 @@ func c09CatalogueChains(r *Runner) {
 	})
 	sumc := &Case{ID: "catalogue-chains", K: "total", In: map[string]any{"target": "catalogue-chain", "cases": total},
 		Impl: map[string]any{"outcome": "terminated"}, Class: "catalogue-chain"}
+	sumc.local, sumc.weight = true, total
+	r.Submit(sumc)
+	for _, c := range found {
+		r.Submit(c)
+	}
+}
+
+// c09SerialLengths: a certificate with an OCSP responder and a CRL distribution point and a serial number of every length from
+// 1 to 140 bytes (the OCSP request travels in the URL up to a length, in the body beyond it; the boundary depends on the
+// escaped form), the responder answering garbage, a failure, nothing
+func c09SerialLengths(r *Runner) {
+	total := 0
+	var mu sync.Mutex
+	var found []*Case
+	pki := &revoPKI{other: getOtherCA(), delegates: map[string]*Issued{}, leaves: map[string]*Issued{}}
+	cc := chainCase{label: "c09-serial", levels: []levelSpec{{ocspURLs: []string{"http://ocsp.serial.test/r"}, crlURLs: []string{"http://crl.serial.test/l.crl"}}}}
+	iss := buildRevoChain(&cc)
+	runJobs(140, func(i int) {
+		n := i + 1
+		leaf := pki.leaf(iss[1], []string{"http://ocsp.serial.test/some/path?x=1&y=2"}, []string{"http://crl.serial.test/l.crl"}, false, n, false)
+		chain := []*x509.Certificate{leaf.Cert, iss[1].Cert}
+		for _, answer := range []string{"garbage", "error", "empty"} {
+			tr := roundTripFunc(func(req *http.Request) (*http.Response, error) {
+				switch answer {
+				case "error":
+					return nil, errors.New("no network")
+				case "empty":
+					return httpReply(req, 200, "application/ocsp-response", nil), nil
+				}
+				return httpReply(req, 200, "application/ocsp-response", []byte("garbage")), nil
+			})
+			o := guarded(10*time.Second, func() error {
+				client := &http.Client{Transport: tr, Timeout: 2 * time.Second}
+				v, err := revocation.NewWithOptions(revocation.Options{OCSPHTTPClient: client, CRLFetcher: &scriptedFetcher{m: map[string]*fetchBehaviour{}}, CertChainPurpose: purpose.CodeSigning})
+				if err != nil {
+					return err
+				}
+				_, _ = v.ValidateContext(context.Background(), revocation.ValidateContextOptions{CertChain: chain, AuthenticSigningTime: baseTime()})
+				_, _ = revocsp.CheckStatus(revocsp.Options{CertChain: chain, SigningTime: baseTime(), HTTPClient: client, CertChainPurpose: purpose.CodeSigning})
+				return nil
+			})
+			mu.Lock()
+			total++
+			if o.Outcome == "panic" || o.Outcome == "hang" {
+				clause := map[string]string{"panic": "panic_on_the_calling_goroutine", "hang": "does_not_return"}[o.Outcome]
+				c := &Case{ID: fmt.Sprintf("serial-length-%d-%s", n, answer), K: "total", In: map[string]any{"target": "serial-length", "serial_bytes": n, "responder": answer},
+					Impl: map[string]any{"outcome": o.Outcome, "_detail": o.Detail}, Class: "serial-length/" + o.Outcome,
+					Replay: map[string]any{"chain_pem": pemChain(chain), "responder_answers": answer, "detail": o.Detail}}
+				c.local, c.localClause = true, clause
+				found = append(found, c)
+			}
+			mu.Unlock()
+		}
+	})
+	sumc := &Case{ID: "serial-lengths", K: "total", In: map[string]any{"target": "serial-length", "cases": total}, Impl: map[string]any{"outcome": "terminated"}, Class: "serial-length"}
 	sumc.local, sumc.weight = true, total
 	r.Submit(sumc)
 	for _, c := range found {
